@@ -30,7 +30,7 @@ type dest struct {
 type op struct {
 	Kind  string `json:"kind"`            // xfer tokxfer create call tokcall ain uspend lie hostile
 	From  string `json:"from,omitempty"`  // paying account A|B|C
-	To    string `json:"to,omitempty"`    // account name, contract role, "X:<code>" = address of A's next creation of <code>
+	To    string `json:"to,omitempty"`    // account name, contract role, "X:<code>"/"Y:<code>" = address of A's next/previous creation of <code>
 	Tok   string `json:"tok,omitempty"`   // coin | gen (genesis token, no contract) | iss (token of the issuer contract)
 	Amt   string `json:"amt,omitempty"`   // amount class
 	Gas   string `json:"gas,omitempty"`   // "" exact/default | +1 | -1 | low
@@ -227,6 +227,14 @@ func (x *bctx) addr(name string) (common.Address, error) {
 	case "issuer":
 		return x.w.issuer, nil
 	}
+	if strings.HasPrefix(name, "Y:") { // where A's PREVIOUS creation of that code lives (created earlier in this block, or before)
+		c := creationByName(name[2:])
+		n := x.peekNonce(txkit.A.Addr)
+		if c == nil || n == 0 {
+			return common.Address{}, fmt.Errorf("bad address %q", name)
+		}
+		return txkit.ContractAddress(txkit.A.Addr, n-1, c.init()), nil
+	}
 	if strings.HasPrefix(name, "X:") { // where A's next creation of that code will live
 		c := creationByName(name[2:])
 		if c == nil {
@@ -354,6 +362,8 @@ func (x *bctx) build(o op) (*txMeta, error) {
 		return x.buildCall(o)
 	case "ain":
 		return x.buildAin(o)
+	case "multisign", "upgrade":
+		return x.buildSpecial(o)
 	case "uspend", "lie", "hostile":
 		if o.Kind == "hostile" && strings.HasPrefix(o.Var, "ain-") {
 			return x.buildAin(o)
@@ -401,6 +411,28 @@ func (x *bctx) buildTransfer(o op) (*txMeta, error) {
 	x.takeNonce(from.Addr)
 	return &txMeta{Op: o, Tx: tx, Class: "free", Payer: from.Addr, Token: tok, Value: amt,
 		Effect: func(m *model) { m.credit(to, tok, amt) }}, nil
+}
+
+// buildSpecial: the two kinds that carry no value at all. MultiSignAccountTx installs a signer table (needs > 2/3 of
+// the validators' power); ContractUpgradeTx is admitted and fails in the VM (no system contract to upgrade). Neither
+// buys gas: nothing may move.
+func (x *bctx) buildSpecial(o op) (*txMeta, error) {
+	none := func(m *model) {}
+	if o.Kind == "multisign" {
+		var vals []txkit.ValidatorSigner
+		for _, k := range x.w.c.Fixture().Keys[:3] {
+			vals = append(vals, txkit.SignerOf(k))
+		}
+		n := x.peekNonce(types.MultiSignNonceAddr)
+		tx := txkit.MultiSign(n, types.TxContractCreateType, 20, []*types.SignerEntry{{Power: 10, Addr: txkit.A.Addr}, {Power: 10, Addr: txkit.B.Addr}}, vals)
+		x.takeNonce(types.MultiSignNonceAddr)
+		return &txMeta{Op: o, Tx: tx, Class: "free", Payer: types.MultiSignNonceAddr, Token: coinTok, Value: bi(0), Effect: none}, nil
+	}
+	from := account(o.From)
+	n := x.peekNonce(from.Addr)
+	tx := txkit.Upgrade(from, n, collector, append(append([]byte{}, txkit.WasmMagic...), 1, 0, 0, 0), txkit.A, txkit.B)
+	x.takeNonce(from.Addr)
+	return &txMeta{Op: o, Tx: tx, Class: "free", Payer: from.Addr, Token: coinTok, Value: bi(0), Effect: none}, nil
 }
 
 func (x *bctx) buildCreate(o op) (*txMeta, error) {
@@ -828,14 +860,14 @@ func (x *bctx) buildSpend(o op) (*txMeta, error) {
 		case "fee-uncommitted":
 			tx.Fee = new(big.Int).Set(fee)
 			m.Class, m.Why = "must-reject", "declared fee is not part of the commitment balance"
-		case "aout-inflated": // the account receives 1000 coins more than committed
+		case "aout-inflated": // the account receives 8 coins more than committed (the fee stays adequate for the new amount)
 			ao := tx.Outputs[0].(*types.AccountOutput)
-			ao.Amount = add(ao.Amount, txkit.LKC(1000))
+			ao.Amount = add(ao.Amount, txkit.LKC(8))
 			m.AccAmount = ao.Amount
 			m.Class, m.Why = "must-reject", "account output amount above its commitment"
 		case "aout-inflated-recommit":
 			ao := tx.Outputs[0].(*types.AccountOutput)
-			ao.Amount = add(ao.Amount, txkit.LKC(1000))
+			ao.Amount = add(ao.Amount, txkit.LKC(8))
 			k, e := types.BigInt2Hash(new(big.Int).Div(ao.Amount, unit))
 			if e != nil {
 				berr = e
